@@ -54,7 +54,7 @@ def source_hash(repo):
 def prepare_numba_cache(repo):
     """numba's on-disk cache only looks at the mtime of the kernel's own file, so an
     edit in a callee is missed; key the cache directory by a hash of all sources."""
-    base = os.path.join(VERIF_ROOT, ".numba")
+    base = os.environ.get("VERIF_NUMBA_BASE") or os.path.join(VERIF_ROOT, ".numba")  # developer tools running several trees at once keep them apart
     os.makedirs(base, exist_ok=True)
     d = os.path.join(base, source_hash(repo))
     os.makedirs(d, exist_ok=True)
